@@ -353,7 +353,8 @@ namespace Pistache
             Size<T> size;
 
             std::ostream os(&stream.buf_);
-            os << std::hex << size(val) << crlf;
+            // the chunk size is hexadecimal, the data itself is not
+            os << std::hex << size(val) << std::dec << crlf;
             os << val << crlf;
 
             return stream;
